@@ -524,6 +524,15 @@ asm labels aside -/
 theorem every_type_keyword_starts_a_type_name :
     specQualStart.all (fun k => castTypeStart.contains k || [Kind.Keyword_ExtGNU___asm__, .Keyword_ExtGNU___attribute__, .Keyword_static].contains k) = true := by decide
 
+/-- generated obligation: every statement keyword of 6.8 (and `{`) is handed to the rule of its own statement - the rule the statement model
+`Stmt.stmt` transcribes under that keyword -/
+theorem statement_dispatch_is_C11 :
+    stmtDispatch = [(.OpenBraceToken, "parseCompoundStatement_AtFirst"), (.Keyword_if, "parseIfStatement_AtFirst"),
+      (.Keyword_switch, "parseSwitchStatement_AtFirst"), (.Keyword_case, "parseLabeledStatement_AtFirst"),
+      (.Keyword_default, "parseLabeledStatement_AtFirst"), (.Keyword_while, "parseWhileStatement_AtFirst"), (.Keyword_do, "parseDoStatement_AtFirst"),
+      (.Keyword_for, "parseForStatement_AtFirst"), (.Keyword_goto, "parseGotoStatement_AtFirst"), (.Keyword_continue, "parseContinueStatement_AtFirst"),
+      (.Keyword_break, "parseBreakStatement_AtFirst"), (.Keyword_return, "parseReturnStatement_AtFirst")] := by decide
+
 end PsycheModel.Generated.Facts
 
 namespace PsycheModel.Expr
